@@ -19,7 +19,7 @@ from fv.gen import geo
 
 ID = "C10"
 RULE = ("dies of at most 4x4 lattice units (int / half / decimal 0.1 steps, 0-2 blockages or fixed regions), refined by initial_grid or split_refinable_regions to 2-16 cells; netlists of 2-6 modules "
-        "mixing soft (centres given), hard (1-3 rectangles), flippable hard, fixed; alpha in {0,.3,.7,1}, threshold in {.7,.9,.95,.99}, max_iter 1-3; "
+        "mixing soft (centres given), hard (1-3 rectangles), flippable hard, fixed; alpha in {0,.3,.7,1}, threshold in {.45,.7,.9,.95,.99}, max_iter 1-3; "
         "non-trivial = the optimiser returned and the allocation has >=2 cells; distinct = distinct instance")
 ASSUMPTIONS = [
     "only runs in which the optimiser returns are judged (GEKKO's 'solution not found' exception = did not return, counted as no_return); the non-linear solver is trusted within its tolerance",
@@ -30,7 +30,7 @@ CASES = {"quick": 600, "thorough": 20000}
 MIN_CASES = {"quick": 150, "thorough": 1500}
 MIN_COUNTERS = {"quick": {"returned": 80}, "thorough": {"returned": 600}}
 REQUIRED_CLASSES = ["clash", "synthetic_mirror"]
-REQUIRED_COUNTERS = ["synthetic_extractions_judged", "returned", "iterations_judged_by_contract", "final_returns_judged", "cells_checked", "hard_modules_checked", "fixed_modules_checked", "staircase_hard_modules_checked"]
+REQUIRED_COUNTERS = ["synthetic_extractions_judged", "returned", "iterations_judged_by_contract", "final_returns_judged", "cells_checked", "hard_modules_checked", "fixed_modules_checked", "staircase_hard_modules_checked", "synthetic_shared_cells:threshold_below_half", "synthetic_shared_cells:threshold_above_half"]
 SOFT_DEADLINE = {"quick": 240, "thorough": 3300}
 WATCHDOG = {"quick": 900, "thorough": 7200}
 
@@ -94,12 +94,14 @@ def gen_synthetic(rng):
     if rng.random() < 0.5:
         rects.append([3.5 * u, 1.75 * u, 1 * u, 0.5 * u])
     flip = rng.random() < 0.8
-    mods = {"H": {"hard": True, "rectangles": rects}, "S": {"area": 2 * u * u, "center": [W - 2 * u, H - 2 * u]}}
+    mods = {"H": {"hard": True, "rectangles": rects}, "S": {"area": 2 * u * u, "center": [W - 2 * u, H - 2 * u]},
+            "S2": {"area": 2 * u * u, "center": [W - 1 * u, 1 * u]}}
     if flip:
         mods["H"]["flip"] = True
-    return {"cls": "synthetic_mirror", "die": {"fam": "int", "W": W, "H": H, "regions": [], "struct": "empty", "fixed": {}, "netlist": {"Modules": mods, "Nets": [["H", "S"]]}},
+    return {"cls": "synthetic_mirror", "share": rng.randrange(1000) if rng.random() < 0.6 else None, "share_ratio": rng.choice([0.5, 0.5, 0.4, 0.6]),
+            "die": {"fam": "int", "W": W, "H": H, "regions": [], "struct": "empty", "fixed": {}, "netlist": {"Modules": mods, "Nets": [["H", "S"], ["S", "S2", 2]]}},
             "refine": ["grid", n, n], "mirror": [rng.random() < 0.5, rng.random() < 0.5] if flip else [False, False],
-            "target": [rng.choice([3, 4]) * u, rng.choice([3, 4]) * u], "threshold": 0.9, "alpha": 0.5, "max_iter": 1}
+            "target": [rng.choice([3, 4]) * u, rng.choice([3, 4]) * u], "threshold": rng.choice([0.9, 0.9, 0.45, 0.3, 0.6]), "alpha": 0.5, "max_iter": 1}
 
 
 def check_synthetic(case, ctx):
@@ -130,6 +132,14 @@ def check_synthetic(case, ctx):
                 model.d[f"H_{r}"] = 0.25
         else:
             model.x[m.name], model.y[m.name], model.d[m.name] = float(m.center.x), float(m.center.y), 0.5
+    if case.get("share") is not None:
+        # the optimiser left two soft modules sharing one cell (any split is a legitimate model value); whatever the threshold,
+        # the extracted allocation must not occupy that cell beyond 100%
+        k = case["share"] % len(cells)
+        if not cells[k].fixed and model.a["H"].get(k, 0.0) == 0.0:
+            model.a["S"][k] = float(case["share_ratio"])
+            model.a["S2"][k] = float(1.0 - case["share_ratio"])
+            ctx.count("synthetic_shared_cells:threshold_" + ("below_half" if case["threshold"] < 0.5 else "above_half"))
     _iters.clear()
     ok, out = ctx.call(_opt.extract_solution, model, die, cells, case["threshold"])
     what = f"case={case}"
@@ -231,7 +241,7 @@ def generate(rng, tier, i):
     slim = {k: d[k] for k in ("fam", "W", "H", "regions", "struct")}
     slim["fixed"] = {}
     slim["netlist"] = {"Modules": mods, "Nets": nets}
-    return {"cls": refine[0], "die": slim, "refine": refine, "alpha": rng.choice([0, 0.3, 0.7, 1]), "threshold": rng.choice([0.7, 0.9, 0.95, 0.99]),
+    return {"cls": refine[0], "die": slim, "refine": refine, "alpha": rng.choice([0, 0.3, 0.7, 1]), "threshold": rng.choice([0.7, 0.9, 0.95, 0.99, 0.9, 0.45]),
             "max_iter": rng.choice([1, 1, 2, 3])}
 
 
